@@ -22,7 +22,7 @@ CONSTANTS
     MaxSolve,    \* bound on the number of solves per simulation
     MaxIter,     \* bound on the number of saved iterations per simulation
     MaxMesh,     \* bound on the length of a simulation's mesh history
-    Defect,      \* "none" | "coord_no_notify" | "setmesh_no_observe" | "setiter_keeps_maps" | "rho_no_update" | "bc_size_no_update" | "saveiter_wrong_mesh" | "move_keeps_simcache"
+    Defect,      \* "none" | "coord_no_notify" | "setmesh_no_observe" | "setiter_keeps_maps" | "rho_no_update" | "bc_size_no_update" | "saveiter_wrong_mesh" | "move_keeps_simcache" | "load_drops_observers"
     CacheOn,     \* BOOLEAN: explore configuration-changing actions
     StoreOn,     \* BOOLEAN: explore iteration-store actions
     Acts,        \* set of enabled action names (lets a configuration focus on a group of actions)
@@ -64,10 +64,17 @@ SysSize(s) == IF nlag[s] = 0 THEN 0 ELSE nlag[s] + bcv[s]
 Cfg(s) == [mesh |-> CurMesh(s), geom |-> geomv[CurMesh(s)], par |-> par, rho |-> rho[s], damp |-> damp[s], size |-> SysSize(s)]
 MapKey(s) == [mesh |-> CurMesh(s), size |-> SysSize(s)]
 
-(* after a Save/Load round trip only the store is read (the loaded object owns private copies of mesh and model) *)
+(* After a Save/Load round trip the loaded object owns private copies of mesh and model.  With several simulations only the *)
+(* store is read afterwards (the model is no longer shared).  With a single simulation the life cycle goes on with every     *)
+(* action on the simulation itself and on ITS model (the handle of the model now names the loaded copy): the loaded object     *)
+(* must hear its model exactly as the constructed one did ("unpickle_drops_observers" is the rejected design).  Mesh motions   *)
+(* and replacements stay excluded after a load: a mesh of the history read back from disk has the geometry Save() wrote,       *)
+(* the in-memory reading of the handles is not what the property prefers (DESIGN 0.6).                                          *)
 AnyLoaded == \E s \in Sims : loaded[s]
+AfterLoadActs == {"SetIter", "GetResults"} \cup
+                 (IF Cardinality(Sims) = 1 THEN {"SetParam", "SetRho", "SetDamping", "SetBc", "AddDirichlet", "AddLagrange", "SetAlgo", "GetKCMF", "Solve", "SaveIter"} ELSE {})
 A(name, args) == /\ name \in Acts
-                 /\ AnyLoaded => name \in {"SetIter", "GetResults"}
+                 /\ AnyLoaded => name \in AfterLoadActs
                  /\ act' = [name |-> name, args |-> args]
                  /\ (name # "SaveLoad") => UNCHANGED loaded
 AllActs == {"SetParam", "SetRho", "SetDamping", "Translate", "Rotate", "Symmetry", "SetCoord", "SetMesh", "SetBc", "AddDirichlet",
@@ -102,7 +109,7 @@ Init ==
 SetParam ==
     /\ CacheOn /\ par < MaxVer
     /\ par' = par + 1
-    /\ need' = [s \in Sims |-> TRUE]
+    /\ need' = [s \in Sims |-> IF Defect = "load_drops_observers" /\ loaded[s] THEN need[s] ELSE TRUE]
     /\ A("SetParam", <<>>)
     /\ UNCHANGED <<geomv, geo, obs, meshList, cur, rho, damp, nlag, bcv, dyn, asm, maps, gcache, live, nsolve, results, folder>>
 
